@@ -160,8 +160,10 @@ def _is_logging(t):
         '.logger.' in s.split('(')[0] or s.split('(')[0].endswith(('logger.info', 'logger.debug', 'logger.warning'))
 
 
-def effects(fa, rename=None, keep_calls=True, drop_guards=()):
-    """-> list of (payload, guards frozenset, event)."""
+def effects(fa, rename=None, keep_calls=True, drop_guards=(), callsites=None):
+    """-> list of (payload, guards frozenset, event).  With ``callsites`` (a set of qualified names) only
+    the calls of those functions / classes are listed - every call, statement or not: the plumbing
+    view of a function that merely hands options to the code a property is anchored in."""
     out = []
     ren = rename or {}
 
@@ -171,7 +173,11 @@ def effects(fa, rename=None, keep_calls=True, drop_guards=()):
         if e.d.get('in_lambda'):
             continue
         k = e.kind
-        if k == 'raise':
+        if callsites is not None:
+            if not (k == 'call' and e.f[0] == 'g' and e.f[1] in callsites and not e.d.get('in_comp')):
+                continue
+            p = ('call', r(e.term))
+        elif k == 'raise':
             x = e.exc
             cls = x[1] if x[0] == 'call' else x
             p = ('raise', T.show(cls).split('.')[-1])
@@ -288,7 +294,7 @@ def _show_effect(p, gs):
 
 def compare(ctx, rule, fa, ref_source, module=None, known=(), ignore=None, why='',
             drop_guards=(), only_kinds=None, positional_params=True, ref_fa=None, extra_rename=None,
-            normalize=None):
+            normalize=None, callsites=None):
     """Compare the effects of ``fa`` with those of the reference.  ``known``:
     list of (predicate(found_str, expected_str) -> bool, key, reason) for
     recorded genuine defects."""
@@ -311,8 +317,8 @@ def compare(ctx, rule, fa, ref_source, module=None, known=(), ignore=None, why='
         if fa.kwarg and ref.kwarg and fa.kwarg != ref.kwarg:
             rename[T.V(fa.kwarg)] = T.V(ref.kwarg)
     _compare_defaults(ctx, rule, fa, ref, positional_params, why)
-    got = effects(fa, rename, drop_guards=drop_guards)
-    want = effects(ref, drop_guards=drop_guards)
+    got = effects(fa, rename, drop_guards=drop_guards, callsites=callsites)
+    want = effects(ref, drop_guards=drop_guards, callsites=callsites)
     got = [(_strip_loop_hash(p), _strip_loop_hash(gs), e) for p, gs, e in got]
     want = [(_strip_loop_hash(p), _strip_loop_hash(gs), e) for p, gs, e in want]
     got, want = _inline_one_sided(ctx, got, want)
